@@ -60,6 +60,17 @@ pub struct SelectSupport<T: Transformation> {
     _marker: marker::PhantomData<T>,
 }
 
+/// Verification hook: when set to `VERIF_FORCE_LONG_ON`, `SelectSupport::new` treats every superblock as long.
+#[cfg(simple_sds_verif)]
+#[doc(hidden)]
+pub static VERIF_FORCE_LONG: std::sync::atomic::AtomicUsize = std::sync::atomic::AtomicUsize::new(VERIF_FORCE_LONG_OFF);
+#[cfg(simple_sds_verif)]
+#[doc(hidden)]
+pub const VERIF_FORCE_LONG_OFF: usize = 0x10AD_0000;
+#[cfg(simple_sds_verif)]
+#[doc(hidden)]
+pub const VERIF_FORCE_LONG_ON: usize = 0x10AD_0001;
+
 impl<T: Transformation> SelectSupport<T> {
     /// Verification hook: assembles a support structure from its serialized parts.
     #[cfg(simple_sds_verif)]
@@ -111,6 +122,8 @@ impl<T: Transformation> SelectSupport<T> {
         let log4 = bits::bit_len(parent.len() as u64);
         let log4 = log4 * log4;
         let log4 = log4 * log4;
+        #[cfg(simple_sds_verif)]
+        let log4 = if VERIF_FORCE_LONG.load(std::sync::atomic::Ordering::Relaxed) == VERIF_FORCE_LONG_ON { 0 } else { log4 };
 
         let mut result = SelectSupport {
             samples: IntVector::default(),
